@@ -47,6 +47,22 @@ def r5(repo, run):
     texts = ' '.join(t for p in mp for t, _ in p.facts)
     K = [k for k in KEYS if k in texts]
     if not K:
+        # nothing on the mapping branch iterates the keys of the newer mapping.  When nothing there even looks at the newer node
+        # before the container merge (apart from the pre-filter), the keys are positively not validated
+        looks = False
+        reaches = False
+        for p in mp:
+            sup = [i for i, e in enumerate(p.events) if e.kind == 'call' and e.attr == 'on_merge_impl']
+            if p.status != 'return' or not sup:
+                continue
+            reaches = True
+            for e in p.events[:sup[0]]:
+                if e.kind == 'call' and e.attr not in ('filter_nodes', 'isinstance') and e.callee not in ('isinstance',) \
+                        and ('other' in (e.recv.text if e.recv is not None else '') or any('other' in a.text for a in e.args)):
+                    looks = True
+        if reaches and not looks:
+            run.violation('C02.R5', li, 'mapping-onto-list index validation', 'a mapping merged onto a list reaches the key-wise merge without its keys being looked at: out-of-range keys are appended / accepted instead of raising MergeError')
+            return
         raise AnalysisError('ConfigList.on_merge_impl: validation of mapping keys not recognised')
     K = max(K, key=len)
     iterated = [p for p in mp if any(K in t for t, _ in p.facts) or any(e.in_loop for e in p.events)]
